@@ -414,7 +414,11 @@ var c04PhaseNames = []string{
 }
 
 // evaluate the calls of one scenario; scen describes it
-func (h *c04Harness) tearOracle(res *hx.Result, scen string, calls []*c04TearCall, deadline time.Duration) (hung int) {
+func (h *c04Harness) tearOracle(res *hx.Result, scen string, calls []*c04TearCall, deadline time.Duration, countEach bool) (hung int) {
+	if !countEach {
+		// how many calls a loop gets through before the loss depends on the machine: one case per run
+		res.Count(scen, true)
+	}
 	for _, c := range calls {
 		key := c04Key(int(c.svc), "hello", c.arg)
 		n := h.cnt.get(key)
@@ -438,7 +442,9 @@ func (h *c04Harness) tearOracle(res *hx.Result, scen string, calls []*c04TearCal
 			}
 			res.Dist("teardown-outcome:phase" + fmt.Sprint(c.phase) + ":error")
 		}
-		res.Count(desc, true)
+		if countEach {
+			res.Count(desc, true)
+		}
 	}
 	return hung
 }
@@ -529,7 +535,7 @@ func (h *c04Harness) tearGated(res *hx.Result, rng *hx.Rng, cases *hx.Cases, k i
 	h.flushMailboxes()
 	scen := fmt.Sprintf("tear-down scenario %d: real client over %s (stream wrapper with a gate inside Close() and inside the reader's error path), %d call(s) pending, then %s; calls issued from other goroutines: %d with the reader's error held, %d inside Close(), %d after it (steps reached: %s; %d Write(s) accepted and %d refused by the stream during the tear-down)",
 		k, transport, np[0], what, np[1], np[2], np[3], strings.Join(reached, ","), accepted, refused)
-	hung = h.tearOracle(res, scen, snap, c04TearWait)
+	hung = h.tearOracle(res, scen, snap, c04TearWait, true)
 	_ = all
 	res.Dist("teardown:" + transport + ":" + trigger)
 	if accepted > 0 {
@@ -639,7 +645,7 @@ func (h *c04Harness) tearTimed(res *hx.Result, rng *hx.Rng, k int, transport, tr
 	sort.SliceStable(snap, func(i, j int) bool { return snap[i].gor < snap[j].gor })
 	scen := fmt.Sprintf("tear-down run %d: real client over %s (stream wrapper: Close() takes %v, the reader's error path %v), %d goroutines calling in a loop, after %v %s",
 		k, transport, closeDelay, readDelay, ngor, after, what)
-	hung = h.tearOracle(res, scen, snap, c04TearWait)
+	hung = h.tearOracle(res, scen, snap, c04TearWait, false)
 	res.Dist("teardown-timed:" + transport + ":" + trigger)
 	return hung
 }
